@@ -158,6 +158,7 @@ struct VfRun {
   void lap_op(const Rec &op, const std::string &kind);
   void oracle_seek_faulted(Handle &H, const Rec &op, const std::string &kind, const std::string &site, long ret, int64_t t1, bool was_dirty);
   void crosslap_op(const Rec &op);
+  void closed_handle_op(const Rec &op, const std::string &k);
   void halfrate_op(Handle &H, const Rec &op);
   bool in_range(const std::string &kind, const Rec &op, int64_t &target_pos, double &texact);
   long do_seek_call(Handle &H, const std::string &kind, const Rec &op, bool lap);
